@@ -3,7 +3,8 @@
 The real procedures (nm_individual_address_write / _read, serial-number read / write,
 dmp_authorize2_r_co) run inside a real XKNX on the virtual-time loop against `vk.simbus`:
 every population of 0..3 devices x individual address in {target, a, b} x programming mode
-on/off x connection behaviour {answers, refuses with T_Disconnect, silent} is enumerated
+on/off x connection behaviour {answers, refuses with T_Disconnect, silent, answers data with T_NAK,
+with a T_ACK of the wrong number, with T_ACK + another service} is enumerated
 (serial-number procedures: serial in {asked, other} x address x {honest, answers every serial
 read}; authorization: every pair of free / client-key access levels 0..15).
 
@@ -26,7 +27,8 @@ LEVEL = "fault_enumeration"
 TECHNIQUE = "exhaustive enumeration of small simulated bus populations (device model with transport layer, programming mode, refusals, timeouts) against the real management procedures on a virtual-time loop; bus-log oracle"
 RULE = (
     "every device has its own reply latency {c: handled in the loop iteration of the L_Data.con, i: a few iterations later, m: 20 ms later} (one value for devices that never send anything in the procedure); "
-    "address write: every multiset of 0..3 (thorough: 0..4) devices over address {target,a,b} x programming mode x connection behaviour {answers,refuses,silent} x latency (40 device codes, 12341 / 135751 populations); "
+    "address write: every multiset of 0..3 (thorough: 0..4) devices over address {target,a,b} x programming mode x connection behaviour {answers, refuses with T_Disconnect, silent, T_NAK to every data frame, T_ACK with the wrong number, T_ACK + response of another service} x latency "
+    "(the three faulty behaviours at 20 ms only; devices neither in programming mode nor at the target are never addressed - one code each; 48 device codes, 20825 / 270725 populations); "
     "address read: 0..3 devices over {target,a} x programming mode x {answers,silent} x latency x raise_if_multiple (969 x 2); "
     "serial read/write: every multiset of 0..3 devices over serial {asked,other} x address {target,a} x {honest, answers any serial read} x latency (1771 populations x 2 procedures); "
     "authorize2: all 256 (free level, client-key level) pairs + unknown key + refusing/silent device; "
@@ -36,6 +38,7 @@ LEVEL_TEXT = "All bus populations within the stated bounds are executed against 
 LEVEL_NOTE = "The bus is the model in vk/simbus.py (KNX transport layer automaton per device, per-device reply latency: in the L_Data.con's loop iteration / a few iterations later / 20 ms, no frame loss); larger populations, lost frames and slow devices are outside the enumeration."
 ASSUMPTIONS = [
     "simulated devices follow 03_03_04 (T_Connect/T_Disconnect/numbered data + T_ACK) and answer the broadcast services of 03_05_02; each device replies, per its own latency attribute, in the very loop iteration that processes the L_Data.con of the request, a few iterations later at the same virtual instant, or 20 ms (+2 ms per further frame) later; mixed populations are enumerated; nothing is lost",
+    "faulty occupants: 'naks' answers every numbered data frame with T_NAK, 'wrongack' acknowledges with the following number and then serves the request, 'otherservice' acknowledges and answers with a response of a different service; all three hold their address and count as 'already uses the address'",
     "a 'silent' device ignores point-to-point frames but takes part in broadcasts; NM_IndividualAddress_Check cannot see it, so it does not count as 'already uses the address' nor in the collision clause",
     "interface stub confirms every frame; time.time() read by xknx.management.management is the virtual clock",
     "exceptions out of the receive path while the procedures run are C43's subject (counted in notes, not judged here)",
@@ -43,7 +46,7 @@ ASSUMPTIONS = [
 
 TARGET, ADDR_A, ADDR_B = "1.1.10", "1.1.20", "1.1.30"
 ADDRS = {"t": TARGET, "a": ADDR_A, "b": ADDR_B}
-CONNS = {"A": "answers", "R": "refuses", "S": "silent"}
+CONNS = {"A": "answers", "R": "refuses", "S": "silent", "N": "naks", "W": "wrongack", "X": "otherservice"}
 SER_ASKED = bytes.fromhex("00fa11223344")
 SER_OTHER = bytes.fromhex("00fa55667788")
 CLIENT_KEY = 0x11223344
@@ -187,7 +190,7 @@ def check_write(ctx, pop, default_latency: str = "20ms") -> str:
         by = {}
         for d in states:
             if d["conn"] != "silent":
-                by.setdefault(d["address"], set()).add(d["name"])
+                by.setdefault(d["address"], set()).add(d["name"])  # every non-silent behaviour reacts point-to-point
         return {(a, frozenset(n)) for a, n in by.items() if len(n) > 1}
 
     before = coll(init)
@@ -339,11 +342,25 @@ def _replies(code: str) -> bool:
 def with_latencies(codes, replies):
     out = []
     for c in codes:
-        out.extend([c + l for l in "cim"] if replies(c) else [c + "m"])
+        # the faulty point-to-point behaviours N/W/X are crossed with the 20 ms latency only
+        out.extend([c + l for l in "cim"] if replies(c) and c[2] in "ARS*-" else [c + "m"])
     return out
 
 
-DEV_CODES = with_latencies([a + p + c for a in "tab" for p in "P-" for c in "ARS"], _replies)
+def _write_codes():
+    """Device codes of the address-write populations. Pruned by symmetry: a device that is neither in programming mode nor
+    at the target address is never addressed by the procedure, so its connection behaviour is immaterial (one code each)."""
+    base = []
+    for a in "tab":
+        for p in "P-":
+            for c in "ARSNWX":
+                if p == "-" and a != "t" and c != "A":
+                    continue
+                base.append(a + p + c)
+    return with_latencies(base, _replies)
+
+
+DEV_CODES = _write_codes()
 READ_CODES = with_latencies([a + p + c for a in "ta" for p in "P-" for c in "AS"], lambda c: c[1] == "P")
 SER_CODES = with_latencies([s + a + f for s in "so" for a in "ta" for f in "-*"], lambda c: c[0] == "s" or c[2] == "*")
 
